@@ -70,7 +70,8 @@ def build(tier, seed):
         c.search_fn = c07.search
         return c
     _psb.__name__ = "parent_submodule_block"
-    tasks = [a_task(PROP, _get_deps),
+    tasks = [Task(f"{PROP}.B.use_patterns", PROP, "USE_RE/ONLY_RE/RENAME_RE", lambda: __import__("contracts.rx_use", fromlist=["x"]).obligations(PROP)),
+             a_task(PROP, _get_deps),
              Task(f"{PROP}.S.deplist", PROP, "Project.correlate deplist", lambda: __import__("contracts.deps", fromlist=["x"]).deplist_obligations(PROP, lambda: __import__("bounded.c13", fromlist=["x"]).search())),
              Task(f"{PROP}.S.local_variables", PROP, "FortranType.correlate", lambda: graphsc.local_variables_obligations(PROP)),
              a_task(PROP, _w(graphsc.add_nested_nodes)),
